@@ -121,7 +121,7 @@ def replay_transition(t, rep, stats, fresh_oracle=True):
 
 def emit_and_replay(rep, bd, name, maxcalls, ops, pool, every=1, offset=0, stats=None, timeout=3000):
     e = env(maxcalls, ops, pool, emit="all" if every == 1 else "sample", every=every, offset=offset)
-    r = common.run_tlc("MC_Registry", "MC_Registry.cfg", bd, env=e, workers=1, coverage=False, timeout=timeout,
+    r = common.run_tlc("MC_Registry", "MC_Registry.cfg", bd, env=e, workers=1 if every == 1 else 8, coverage=False, timeout=timeout,
                        tag="emit-%s-%s-%s-%d-%d" % (maxcalls, ops, pool, every, offset))
     rep.add_tlc(name, r, note="emission MAXCALLS=%s OPS=%s POOL=%s every=%d offset=%d" % (maxcalls, ops, pool, every, offset))
     if r.violated:
@@ -145,7 +145,7 @@ def emit_parallel(rep, bd, name, maxcalls, ops, pool, nproc, stats):
     import concurrent.futures as cf
 
     def one(i):
-        e = env(maxcalls, ops, pool, emit="sample", every=nproc, offset=i)
+        e = env(maxcalls, ops, pool, emit="part", every=nproc, offset=i)
         return common.run_tlc("MC_Registry", "MC_Registry.cfg", os.path.join(bd, "part%d" % i), env=e, workers=1, coverage=False,
                               timeout=6000, tag="part%d" % i)
     with cf.ThreadPoolExecutor(max_workers=nproc) as ex:
